@@ -140,7 +140,73 @@ def m_cid_eq(it, a, ty, callee):
     return b_not(r) if callee.endswith('::ne') else r
 
 
+def _cid(it, p):
+    v = deref(it, p)
+    if not isinstance(v, CidM):
+        raise Inconclusive('Cid operation on %r' % (v,))
+    return v
+
+
+def m_cid_to_bytes(it, a, ty, callee):
+    """Cid::to_bytes: v0 = the multihash; v1 = varint(1) varint(codec) multihash"""
+    from .maddr import varint_ints, varint_bytes
+    c = _cid(it, a[0])
+    mhb = varint_ints(it, c.mh.code) + [Int(b, 8) for b in varint_bytes(len(c.mh.digest))] + list(c.mh.digest)
+    if c.version == 0:
+        return Seq(mhb, 'vec')
+    return Seq([Int(1, 8)] + varint_ints(it, c.codec) + mhb, 'vec')
+
+
+def m_cid_read_bytes(it, a, ty, callee):
+    """Cid::read_bytes on a concrete buffer (v1 form, or the bare sha2-256 multihash of v0)"""
+    from .maddr import Mh
+    p = a[0]
+    v = p
+    while isinstance(v, Ptr):
+        v = it.load(v)
+    data = []
+    for b in (v.fields if not (isinstance(p, Ptr) and p.win) else v.fields[p.win[0]:p.win[0] + p.win[1]]):
+        if not (isinstance(b, Int) and b.conc):
+            raise Inconclusive('Cid::read_bytes over symbolic bytes')
+        data.append(b.v)
+
+    def varint(pos):
+        val = 0
+        for i in range(10):
+            if pos + i >= len(data):
+                return None
+            val |= (data[pos + i] & 0x7F) << (7 * i)
+            if data[pos + i] < 0x80:
+                return val, pos + i + 1
+        return None
+    err = res_err(Adt('cid::Error', 0, ()))
+    if len(data) >= 2 and data[0] == 0x12 and data[1] == 0x20:
+        if len(data) < 34:
+            return err
+        return res_ok(CidM(0, Int(0x70, 64), Mh(Int(0x12, 64), [Int(b, 8) for b in data[2:34]])))
+    r = varint(0)
+    if r is None or r[0] != 1:
+        return err
+    r2 = varint(r[1])
+    if r2 is None:
+        return err
+    r3 = varint(r2[1])
+    if r3 is None:
+        return err
+    r4 = varint(r3[1])
+    if r4 is None or r4[0] > 64 or r4[1] + r4[0] > len(data):
+        return err
+    return res_ok(CidM(1, Int(r2[0], 64), Mh(Int(r3[0], 64), [Int(b, 8) for b in data[r4[1]:r4[1] + r4[0]]])))
+
+
 def install(it):
+    A0 = it.add_model
+    A0(r'cid::CidGeneric::<64>::codec', lambda it, a, ty, c: _cid(it, a[0]).codec)
+    A0(r'cid::CidGeneric::<64>::version', lambda it, a, ty, c: Adt(VERSION, _cid(it, a[0]).version, ()))
+    A0(r'cid::CidGeneric::<64>::hash', lambda it, a, ty, c: Ptr(Cell('mh', _cid(it, a[0]).mh)))
+    A0(r'cid::CidGeneric::<64>::to_bytes', m_cid_to_bytes)
+    A0(r'cid::CidGeneric::<64>::read_bytes::<.*>', m_cid_read_bytes)
+    A0(r'<cid::CidGeneric<64> as std::clone::Clone>::clone', lambda it, a, ty, c: _cid(it, a[0]))
     it.adts.defs[VERSION] = [('V0', [], 0), ('V1', [], 1)]
     A = it.add_model
     A(r'<multihash_codetable::Code as std::convert::TryFrom<u64>>::try_from', m_code_try_from)
